@@ -10,6 +10,7 @@
 #include <string>
 #include <vector>
 #include <cstring>
+#include <typeinfo>
 
 struct FD { int comp; unsigned tag; char kind; std::string sval; long long ival; int prec; };
 static std::vector<FD> F;
@@ -71,7 +72,7 @@ static bool component_is(const MessageBase *c, int comp, int pre, const char *wh
    for (size_t k = 0; k < ex.size(); ++k) {
       const BaseField *f = vf_pos_nth(c, unsigned(k + pre));
       if (vf_tag(f) != ex[k]->tag) { bad = std::string(who) + ": field #" + std::to_string(k) + " of component " + std::to_string(comp) + " is tag " + std::to_string(vf_tag(f)) + ", expected " + std::to_string(ex[k]->tag); return false; }
-      if (!same_value(*ex[k], f)) { bad = std::string(who) + ": tag " + std::to_string(ex[k]->tag) + " of component " + std::to_string(comp) + " holds '" + ftext(f) + "', not the value put into the source"; return false; }
+      if (!same_value(*ex[k], f)) { bad = std::string(who) + ": tag " + std::to_string(ex[k]->tag) + " of component " + std::to_string(comp) + " holds the bytes <" + hex(ftext(f)) + ">, not the value put into the source"; return false; }
    }
    return true;
 }
@@ -106,7 +107,7 @@ int main(int argc, char **argv)
          const std::string e1(enc(m)); printf("E1 %s\n", hex(e1).c_str());
          Message *d = nullptr;
          try { d = Message::factory(MINI::ctx(), e1); }
-         catch (f8Exception& e) { bad = std::string("the factory rejects the encoder's own bytes: ") + e.what(); return finish(false); }
+         catch (f8Exception& e) { bad = std::string("the factory rejects the encoder's own bytes: ") + typeid(e).name(); return finish(false); }
          if (!shape_holds(d, "decoded")) return finish(false);
          const std::string e2(enc(d)); printf("E2 %s\n", hex(e2).c_str());
          if (e2 != e1) { bad = "re-encoding differs from the first encoding"; return finish(false); }
@@ -140,6 +141,6 @@ int main(int argc, char **argv)
          if (e0 != e1) { bad = "the target of move_legal encodes differently from the original source"; return finish(false); }
          return finish(true);
       }
-   } catch (f8Exception& e) { bad = std::string("exception: ") + e.what(); return finish(false); }
+   } catch (f8Exception& e) { bad = std::string("exception: ") + typeid(e).name(); return finish(false); }
    return 2;
 }
